@@ -169,7 +169,7 @@ Section Pipeline.
   Variable fuel : nat.
 
   Let U := synth U0 Sv.
-  Let C := mkxcfg (match V with ValSoft => true | _ => false end) (Some (s_tns Sv)).
+  Let C := mkxcfg (match V with ValSoft => true | _ => false end).
 
   (** Soap11.deserialize, header part: elements are matched to the declared classes by
       qualified name through a dict (a later duplicate wins) *)
@@ -214,7 +214,7 @@ Section Pipeline.
   Fixpoint enc_headers (classes : list cid) (vals : list val) : out (list xnode) :=
     match classes, vals with
     | c :: r, v :: vs =>
-        do e <- enc L C U fuel (TRef c) (cls_ns U c) (cls_name U c) v;
+        do e <- enc L U fuel (TRef c) (cls_ns U c) (cls_name U c) v;
         do es <- enc_headers r vs; Ok (e :: es)
     | _, _ => Ok []                                                                  (* zip *)
     end.
@@ -222,7 +222,7 @@ Section Pipeline.
   (** protocol.serialize(ctx, RESPONSE) *)
   Definition serialize (i : nat) (m : method) (ret : val) (ohdr : option (list val)) : out xnode :=
     do v <- out_value i m ret;
-    do body <- enc L C U fuel (fst (resp_ty U0 i m)) (s_tns Sv) (m_name m ++ t_Response) v;
+    do body <- enc L U fuel (fst (resp_ty U0 i m)) (s_tns Sv) (m_name m ++ t_Response) v;
     match P with
     | PXml => Ok body
     | _ =>
@@ -297,7 +297,7 @@ Section Pipeline.
              | EBare => hd VNone args
              | _ => VObj (in_cid U0 i) args
              end in
-    do body <- enc L C U fuel (fst (req_ty U0 i m)) (s_tns Sv) (m_name m) v;
+    do body <- enc L U fuel (fst (req_ty U0 i m)) (s_tns Sv) (m_name m) v;
     match P with
     | PXml => Ok body
     | _ =>
@@ -318,10 +318,11 @@ Section Pipeline.
     | inl _ => VFault
     | inr (_, None) => Crash AttributeError
     | inr (hdoc, Some body) =>
-        do ohdr <- match hdoc, m_out_header m with
-                   | Some hd, (_ :: _) as hc => do hs <- dec_headers hc hd; Ok (Some hs)
-                   | _, _ => Ok None
-                   end;
+        do ohdr0 <- match hdoc, m_out_header m with
+                    | Some hd, (_ :: _) as hc => do hs <- dec_headers hc hd; Ok (Some hs)
+                    | _, _ => Ok None
+                    end;
+        let ohdr := match ohdr0 with Some [VNone] => None | _ => ohdr0 end in   (* len(headers) == 1: the header itself *)
         do v <- dec L C U fuel (fst (resp_ty U0 i m)) (snd (resp_ty U0 i m)) body;
         match m_style m, m_returns m, v with
         | SWrapped, [], _ => Ok (VNone, ohdr)
